@@ -204,11 +204,38 @@ package tcp
 // Validity of a connected endpoint's sender (type invariant of initialised objects).
 //@ define sndOK(s) = s != nil && s.ep != nil && s.ep.rcv != nil && s.ep.rcv.ep != nil && s.resendTimer.timer != nil && s.ep.keepalive.timer.timer != nil
 
-//@ func (*endpoint).sendRaw props C05 C04
+// ASSUMED: the option pool hands out 40-byte buffers (sync.Pool with New = make([]byte, 40);
+// putOptions returns them resliced to full capacity).
+//@ func getOptions props C05 C04 C06 C03
 //@   trusted
+//@   ensures len(result) == maxOptionSize && cap(result) == maxOptionSize && fresh(result)
+
+//@ func putOptions props C05 C04 C06 C03
+//@   trusted
+
+//@ func (*endpoint).timestamp props C05 C04 C06 C03
+//@   trusted
+
+// Post-handshake options: nothing, or NOP NOP TS (12 bytes), followed by NOP NOP SACK blocks
+// when SACK was negotiated and there are blocks: always a multiple of 4 bytes, at most 40, and
+// the internal alignment assertion cannot fail.
+//@ func (*endpoint).makeOptions props C06 C05 C04 C03 C07
+//@   requires e != nil
+//@   ensures len(result) <= maxOptionSize && len(result) % 4 == 0 && len(result) >= 0
+//@   ensures implies(!e.sendTSOk && !(e.sackPermitted && len(sackBlocks) > 0), len(result) == 0)
+//@   ensures implies(e.sendTSOk, len(result) >= 12 && result[0] == 1 && result[1] == 1 && result[2] == 8 && result[3] == 10 && be32(result, 8) == uint32(e.recentTS))
+
+// sendRaw emits exactly one segment with the given flags, sequence and acknowledgement numbers
+// (verified down to the hand-over to the network layer, see sendTCP).
+//@ func (*endpoint).sendRaw props C05 C04 C06 C03
+//@   requires e != nil && 0 <= data.size && data.size <= 1 << 30 && 0 <= e.sack.NumBlocks && e.sack.NumBlocks <= MaxSACKBlocks
+//@   requires forall(k, 0, len(data.views), len(data.views[k]) <= 65536)
+//@   requires implies(e.state == stateConnected, e.rcv != nil)
+//@   ensures ghost(tcpSegs) == old(ghost(tcpSegs)) + 1
+//@   ensures ghost(lastTCPFlags) == int(flags) && ghost(lastTCPSeq) == int(uint32(seq)) && ghost(lastTCPAck) == int(uint32(ack))
 //@   ensures ghost(sentNonFin) == old(ghost(sentNonFin)) + ite(flags & flagFin == 0, 1, 0)
 //@   ensures ghost(sentFin) == old(ghost(sentFin)) + ite(flags & flagFin != 0, 1, 0)
-//@   modifies ghost(sentNonFin), ghost(sentFin)
+//@   modifies everything(), ghost(tcpSegs), ghost(lastTCPFlags), ghost(lastTCPSeq), ghost(lastTCPAck), ghost(sentNonFin), ghost(sentFin)
 
 // The advertised right edge never moves backwards (serial order) and the returned window is
 // the distance to it, scaled.
@@ -285,8 +312,10 @@ package tcp
 //@   ensures ghost(lastTCPFlags) == int(flags)
 //@   ensures ghost(lastTCPSeq) == int(uint32(seq))
 //@   ensures ghost(lastTCPAck) == int(uint32(ack))
+//@   ensures ghost(sentNonFin) == old(ghost(sentNonFin)) + ite(flags & flagFin == 0, 1, 0)
+//@   ensures ghost(sentFin) == old(ghost(sentFin)) + ite(flags & flagFin != 0, 1, 0)
 //@   loop 1 invariant -1 <= rangeindex && rangeindex < len(data.views)
-//@   modifies everything(), ghost(tcpSegs), ghost(lastTCPFlags), ghost(lastTCPSeq), ghost(lastTCPAck)
+//@   modifies everything(), ghost(tcpSegs), ghost(lastTCPFlags), ghost(lastTCPSeq), ghost(lastTCPAck), ghost(sentNonFin), ghost(sentFin)
 
 // A parsed segment: the fields are those of the header; the data offset must lie between 20
 // and the bytes present in the first view, otherwise parsing fails and nothing is read beyond
@@ -308,7 +337,7 @@ package tcp
 //@   ensures ghost(tcpSegs) == old(ghost(tcpSegs)) + 1 && ghost(lastTCPFlags) == int(flagRst | flagAck)
 //@   ensures ghost(lastTCPSeq) == ite(old(s.flags) & flagAck != 0, int(uint32(old(s.ackNumber))), 0)
 //@   ensures ghost(lastTCPAck) == int(uint32(old(s.sequenceNumber) + seqnum.Value(old(s.logicalLen()))))
-//@   modifies everything(), ghost(tcpSegs), ghost(lastTCPFlags), ghost(lastTCPSeq), ghost(lastTCPAck)
+//@   modifies everything(), ghost(tcpSegs), ghost(lastTCPFlags), ghost(lastTCPSeq), ghost(lastTCPAck), ghost(sentNonFin), ghost(sentFin)
 
 // A segment for which no socket exists: unparsable segments and resets are not answered;
 // anything else is answered by exactly one reset.
@@ -319,4 +348,15 @@ package tcp
 //@   ensures implies(ghost(tcpSegs) != old(ghost(tcpSegs)), old(vv.views[0][13]) & flagRst == 0)
 //@   ensures implies(result && old(vv.views[0][13]) & flagRst != 0, ghost(tcpSegs) == old(ghost(tcpSegs)))
 //@   ensures implies(result && old(vv.views[0][13]) & flagRst == 0, ghost(tcpSegs) == old(ghost(tcpSegs)) + 1)
-//@   modifies everything(), ghost(tcpSegs), ghost(lastTCPFlags), ghost(lastTCPSeq), ghost(lastTCPAck)
+//@   modifies everything(), ghost(tcpSegs), ghost(lastTCPFlags), ghost(lastTCPSeq), ghost(lastTCPAck), ghost(sentNonFin), ghost(sentFin)
+
+// A handshake segment whose ACK acknowledges anything but ISS+1 is refused and answered by
+// exactly one reset whose sequence number is that acknowledgement number; a segment without
+// ACK, or with the exact acknowledgement, passes and nothing is sent.
+//@ func (*handshake).checkAck props C03
+//@   requires h != nil && s != nil && h.ep != nil && 0 <= h.ep.sack.NumBlocks && h.ep.sack.NumBlocks <= MaxSACKBlocks && implies(h.ep.state == stateConnected, h.ep.rcv != nil)
+//@   ensures result == !(old(s.flags) & flagAck != 0 && old(s.ackNumber) != old(h.iss) + 1)
+//@   ensures implies(result, ghost(tcpSegs) == old(ghost(tcpSegs)))
+//@   ensures implies(!result, ghost(tcpSegs) == old(ghost(tcpSegs)) + 1 && ghost(lastTCPFlags) == int(flagRst | flagAck) && ghost(lastTCPSeq) == int(uint32(old(s.ackNumber)))
+//@             && ghost(lastTCPAck) == int(uint32(old(s.sequenceNumber) + seqnum.Value(old(s.logicalLen())))))
+//@   modifies everything(), ghost(tcpSegs), ghost(lastTCPFlags), ghost(lastTCPSeq), ghost(lastTCPAck), ghost(sentNonFin), ghost(sentFin)
